@@ -78,3 +78,22 @@ pub fn log2_distance(a: &NodeId, b: &NodeId) -> u64 {
     }
     0
 }
+
+/// Independent check of a handshake id-signature (discv5.1: ECDSA/secp256k1 over
+/// sha256("discovery v5 identity proof" ‖ challenge-data ‖ ephemeral-pubkey ‖ destination-id)).
+/// Deliberately does not call the crate's own `verify_authentication_nonce`: the oracle must not
+/// inherit a defect of the function it judges.
+pub fn ref_verify_id_signature(pubkey: &discv5::enr::CombinedPublicKey, ephem_pubkey: &[u8], challenge_data: &[u8], dst_id: &NodeId, sig: &[u8]) -> bool {
+    use discv5::enr::k256::ecdsa::{signature::Verifier, Signature};
+    let mut data = b"discovery v5 identity proof".to_vec();
+    data.extend_from_slice(challenge_data);
+    data.extend_from_slice(ephem_pubkey);
+    data.extend_from_slice(&dst_id.raw());
+    match pubkey {
+        discv5::enr::CombinedPublicKey::Secp256k1(key) => match Signature::try_from(sig) {
+            Ok(sig) => key.verify(&data, &sig).is_ok(),
+            Err(_) => false,
+        },
+        _ => false,
+    }
+}
